@@ -47,7 +47,13 @@ func (e *Evaluator) Run(q *cypher.RegularQuery) (*Result, error) {
 			if part.With == nil {
 				return nil, unknown("multi-part query part without WITH")
 			}
-			res, err := e.project(part.With.Projection, rows)
+			withProjection := part.With.Projection
+			if e.Dev.WithDropsOrderSkipLimit && withProjection != nil && (withProjection.Order != nil || withProjection.Skip != nil || withProjection.Limit != nil) {
+				cp := *withProjection
+				cp.Order, cp.Skip, cp.Limit = nil, nil, nil
+				withProjection = &cp
+			}
+			res, err := e.project(withProjection, rows)
 			if err != nil {
 				return nil, err
 			}
